@@ -26,9 +26,24 @@ def body(t):
         if bad: return
 
 
-sys.setswitchinterval(1e-6)
-ts = [threading.Thread(target=body, args=(t,)) for t in range(T)]
-for t in ts: t.start()
-for t in ts: t.join()
-sys.setswitchinterval(0.005)
+import contextlib
+frozen = contextlib.nullcontext()
+if job.get("now") is not None:          # a clock that stands still for the whole run (never at a whole second), for values that depend on today
+    import time_machine
+    frozen = time_machine.travel(float(job["now"]) + 0.37, tick=False)
+if job.get("yield_lines"):
+    # every line of the library's code ends with this thread offering the interpreter to the others: an interleaving at every statement
+    # boundary of the code under test (a fill loop, two stores that belong together) instead of wherever the switch interval falls
+    import time as _time
+    def tracer(frame, event, arg):
+        if "aioswitcher" not in frame.f_code.co_filename: return None
+        if event == "line": _time.sleep(0)
+        return tracer
+    threading.settrace(tracer)
+with frozen:
+    sys.setswitchinterval(1e-6)
+    ts = [threading.Thread(target=body, args=(t,)) for t in range(T)]
+    for t in ts: t.start()
+    for t in ts: t.join()
+    sys.setswitchinterval(0.005)
 json.dump({"bad": bad, "done": done[0]}, sys.stdout)
